@@ -9,11 +9,29 @@ Definition dump_c (c : comp) : option ini := dump_comp dump_table c.
 Definition parse_c (i : ini) : option comp := parse_ini parse_table known_keys i.
 Definition roundtrip_c (c : comp) : option comp := roundtrip dump_table parse_table known_keys c.
 
+(* parse_component stores the references only when the list is not empty (`if references:`): an empty and
+   an absent list of references are the same configuration; compared as such *)
+Definition is_empty_refs (o : string * val) : bool :=
+  String.eqb (fst o) "references" && match snd o with VList [] => true | _ => false end.
+Definition norm_c (c : comp) : comp := mkComp (filter (fun o => negb (is_empty_refs o)) (opts c)) (vars c).
+Definition same_comp (a b : comp) : bool := comp_eqb (norm_c a) (norm_c b).
+
 (* case = (component handed to Dosini.dump, component found in the document returned by
    Dosini.load_from_directory; None when loading raised InvalidValueForConstant) *)
 Definition check_case (x : comp * option comp) : bool :=
   match roundtrip_c (fst x), snd x with
-  | Some c', Some o => comp_eqb c' o
+  | Some c', Some o => same_comp c' o
+  | None, None => true
+  | _, _ => false
+  end.
+
+(* Dosini.load_from_directory ends with FlowIR.compress_flowir, which removes every empty collection of
+   the loaded document: at the level of the instance files an option holding the empty list is absent *)
+Definition is_empty_list (o : string * val) : bool := match snd o with VList [] => true | _ => false end.
+Definition compress_c (c : comp) : comp := mkComp (filter (fun o => negb (is_empty_list o)) (opts c)) (vars c).
+Definition check_file_case (x : comp * option comp) : bool :=
+  match roundtrip_c (fst x), snd x with
+  | Some c', Some o => comp_eqb (compress_c c') (compress_c o)
   | None, None => true
   | _, _ => false
   end.
@@ -28,7 +46,7 @@ Definition check_dump (x : comp * ini) : bool :=
 (* case = (entries of a section, what Dosini.parse_component returned for it) *)
 Definition check_parse (x : ini * option comp) : bool :=
   match parse_c (fst x), snd x with
-  | Some c', Some o => comp_eqb c' o
+  | Some c', Some o => same_comp c' o
   | None, None => true
   | _, _ => false
   end.
